@@ -136,20 +136,37 @@ int main(int argc, char** argv)
 {
     vf::Run R(argc, argv, "C07", "c07_sched");
     bool const thorough = R.thorough();
-    int const bound = thorough ? 2 : 1;
     celeritas::verif::g_yield = &hook;
     auto& budget = vf::sched::g.tag_budget;
-    budget["begin-run-action"] = 1000;
-    budget["streamstore-state-check"] = 6;
-    budget["streamstore-state-alloc"] = 6;
-    budget["mutex-lock"] = 40;
-    budget["mutex-unlock"] = 40;
-    budget["step-action"] = thorough ? 60 : 30;
-    budget["atomic-rmw"] = thorough ? 16 : 8;
-    // shared tallies: their own budgets (see hook())
-    budget["atomic-rmw@action-diagnostic"] = thorough ? 8 : 4;
-    budget["atomic-rmw@step-diagnostic"] = thorough ? 8 : 4;
-    budget["atomic-rmw@step-gather-post"] = thorough ? 8 : 4;
+    // per-thread budgets of the hot scheduling points; "small" = quick tier
+    auto set_budgets = [&](bool large) {
+        budget["begin-run-action"] = 1000;
+        budget["streamstore-state-check"] = 6;
+        budget["streamstore-state-alloc"] = 6;
+        budget["mutex-lock"] = 40;
+        budget["mutex-unlock"] = 40;
+        budget["step-action"] = large ? 60 : 30;
+        budget["atomic-rmw"] = large ? 16 : 8;
+        // shared tallies: their own budgets (see hook())
+        budget["atomic-rmw@action-diagnostic"] = large ? 8 : 4;
+        budget["atomic-rmw@step-diagnostic"] = large ? 8 : 4;
+        budget["atomic-rmw@step-gather-post"] = large ? 8 : 4;
+    };
+    // passes: quick    = <= 1 preemption, small budgets
+    //         thorough = <= 2 preemptions with the small budgets for the two-thread roots,
+    //                    and <= 1 preemption with the doubled budgets for all roots
+    struct Pass
+    {
+        int bound;
+        bool large;
+        bool only_two_threads;
+    };
+    std::vector<Pass> passes;
+    if (thorough)
+        passes = {{2, false, true}, {1, true, false}};
+    else
+        passes = {{1, false, false}};
+    set_budgets(false);
 
     std::vector<Variant> variants = all_variants();
     std::vector<Case> cases;
@@ -190,17 +207,23 @@ int main(int argc, char** argv)
                 R.tag(std::string("variant-has:") + v.name + ":" + t);
     }
     uint64_t outer = 0;
+    for (auto const& pass : passes)
     for (auto const& v : variants)
         for (auto const& cs : cases)
         {
+            if (pass.only_two_threads && cs.T != 2)
+                continue;
             if (!R.mine(outer++))
                 continue;
             if (R.expired())
                 break;
+            int const bound = pass.bound;
+            set_budgets(pass.large);
             std::string aid;
             for (unsigned s : cs.assign)
                 aid += std::to_string(s);
-            std::string root = fmt("sched:%s:T=%u:assign=%s", v.name, cs.T, aid.c_str());
+            std::string root = fmt("sched:%s:T=%u:assign=%s:B%d%s", v.name, cs.T, aid.c_str(),
+                                   bound, pass.large ? "L" : "S");
             if (R.replay() && R.replay_case().compare(0, root.size() + 1, root + "|") != 0)
                 continue;
             // serial reference
@@ -291,8 +314,9 @@ int main(int argc, char** argv)
                 explore(body, on_exec, bound, &st);
             R.count("roots");
         }
-    R.note("preemption_bound", std::to_string(bound));
-    R.sample("sched:rec:T=2:assign=010|0.0.0.1 = two streams; events 0,2 on stream 0, event 1 on "
+    R.note("preemption_bound", thorough ? "2 (two threads, small budgets) / 1 (all roots, doubled budgets)"
+                                        : "1");
+    R.sample("sched:rec:T=2:assign=010:B1S|0.0.0.1 = two streams (<= 1 preemption, small budgets); events 0,2 on stream 0, event 1 on "
              "stream 1; schedule: run thread 0, preempt it at its 4th scheduling point in favour of "
              "thread 1, then run to completion");
     return R.finish();
